@@ -68,9 +68,9 @@ func pStyle(p *canon.Node) string {
 // lists
 
 type listPara struct {
-	numID, ilvl string
+	numID, ilvl    string
 	hasNum, hasLvl bool
-	text        string
+	text           string
 }
 
 // listParas returns the body-level paragraphs that carry w:numPr, in document order.
